@@ -7,6 +7,8 @@ import (
 	"os"
 
 	"verif/internal/checks/c14"
+	"verif/internal/checks/relay"
+	"verif/internal/ev"
 )
 
 type check struct {
@@ -58,5 +60,30 @@ func main() {
 		fmt.Println("HARNESS-ERROR: tier must be quick or thorough")
 		os.Exit(2)
 	}
-	os.Exit(c.run(tier))
+	os.Exit(runGuarded(os.Args[1], tier, c))
+}
+
+// runGuarded runs a check; if the relay history a check builds as its fixture already trips a monitor (the code under
+// test misbehaves in the history every check takes for granted), that is reported as a violation of the running check's
+// property — the fixture is part of what the check exercises — instead of crashing.
+func runGuarded(id, tier string, c check) (code int) {
+	defer func() {
+		if rec := recover(); rec != nil {
+			fv, ok := rec.(relay.FixtureViolation)
+			if !ok {
+				panic(rec)
+			}
+			level := "model_checking"
+			switch id {
+			case "C06", "C08", "C13", "C15", "C19":
+				level = "exploration"
+			}
+			r := ev.Start(id, tier, level)
+			for _, v := range fv.Viols {
+				r.Violation(id+":fixture-history-trips-a-monitor/"+v.Sig, fmt.Sprintf("while building the relay history this check starts from, operation %q: %s", fv.Op, v.Detail), map[string]interface{}{"engine": "fixture", "op": fv.Op})
+			}
+			code = r.Finish(ev.Coverage{Evaluations: 1, Distinct: 1, Exhaustive: false, Rule: "the check's fixture history did not run cleanly: a monitor of the relay system reported a violation while it was built", Bounds: map[string]interface{}{"tier": tier}})
+		}
+	}()
+	return c.run(tier)
 }
